@@ -26,6 +26,7 @@ CONSTANTS
   HOps = {"read", "ret", "closebody"}
   ReadLens = {1, 3}
   WriteLens = {1}
+  WRN = 1
   N400C = 1
   N400T = 2
   MaxSteps = @STEPS@
